@@ -348,20 +348,20 @@ class _Parser(object):
 
             if operator == '$abs':
                 return abs(number)
-            if operator == '$ceil':
-                return math.ceil(number)
+            if operator in ('$ceil', '$floor', '$trunc'):
+                rounded = {
+                    '$ceil': math.ceil, '$floor': math.floor, '$trunc': math.trunc,
+                }[operator](number)
+                # The result keeps the type of the operand: a double stays a double.
+                return float(rounded) if isinstance(number, float) else rounded
             if operator == '$exp':
                 return math.exp(number)
-            if operator == '$floor':
-                return math.floor(number)
             if operator == '$ln':
                 return math.log(number)
             if operator == '$log10':
                 return math.log10(number)
             if operator == '$sqrt':
                 return math.sqrt(number)
-            if operator == '$trunc':
-                return math.trunc(number)
 
         if operator in binary_arithmetic_operators:
             if not isinstance(values, (tuple, list)):
@@ -379,10 +379,21 @@ class _Parser(object):
                 return number_0 / number_1
             if operator == '$log':
                 return math.log(number_0, number_1)
+            both_integers = isinstance(number_0, int) and isinstance(number_1, int)
             if operator == '$mod':
+                if both_integers and number_1:
+                    # Integers stay integers; the remainder has the sign of the dividend.
+                    remainder = abs(number_0) % abs(number_1)
+                    return -remainder if number_0 < 0 else remainder
                 return math.fmod(number_0, number_1)
             if operator == '$pow':
-                return math.pow(number_0, number_1)
+                result = math.pow(number_0, number_1)
+                if both_integers and number_1 >= 0:
+                    # Integers stay integers as long as the result fits in 64 bits.
+                    power = number_0 ** number_1
+                    if -2 ** 63 <= power < 2 ** 63:
+                        return power
+                return result
             if operator == '$subtract':
                 if isinstance(number_0, datetime.datetime) and \
                         isinstance(number_1, (int, float)):
